@@ -200,7 +200,7 @@ func contains(xs []string, x string) bool {
 }
 
 func runC16(r *Run, rng *Rng, thorough bool) {
-	nHist := 150
+	nHist := 800
 	if thorough {
 		nHist = 6000
 	}
@@ -341,7 +341,7 @@ func runC16(r *Run, rng *Rng, thorough bool) {
 // with earlier results — no memory reachable from two results, and mutating one (through setters and in place
 // through every pointer it holds) changes nothing observable in the others.
 func c16Instances(r *Run, rng *Rng, thorough bool) {
-	reps := 40
+	reps := 120
 	if thorough {
 		reps = 1500
 	}
